@@ -1,19 +1,19 @@
 #!/bin/bash
 # seed_verify.sh <ID>: confirm in the scratch worktree /tmp/seed/<ID> that the seeded change
 # (a) passes the pinned suite, (b) fails its demonstration, (c) the demonstration passes without it.
+# (no `git stash`: refs/stash is shared between worktrees and sub-agents may be using it)
 set -u
 ID=$1; W=/tmp/seed/$ID; export CARGO_TARGET_DIR=$W/target CARGO_NET_OFFLINE=true
 cd $W || exit 2
-git stash list | head -1
-git diff --stat -- src
-git diff -- src > /tmp/seed/$ID.cur.diff
-if ! diff -q /tmp/seed/$ID.cur.diff SEED/patch.diff >/dev/null; then echo "NOTE: patch.diff differs from applied change"; fi
+git checkout -q -- src 2>/dev/null
+git apply SEED/patch.diff || { echo "SEED/patch.diff does not apply to a clean tree"; exit 2; }
+git diff --stat -- src | tail -1
 rm -f tests/zz_seed_demo.rs
-echo "== suite with change"; cargo test --offline 2>&1 | grep -E "^test result|FAILED|failed" 
+echo "== suite with change"; cargo test --offline 2>&1 | grep -E "^test result|FAILED|failed"
 cp SEED/demo.rs tests/zz_seed_demo.rs
-echo "== demo with change"; cargo test --offline --test zz_seed_demo 2>&1 | grep -E "^test |^test result" 
-git stash push -q -- src
+echo "== demo with change"; cargo test --offline --test zz_seed_demo 2>&1 | grep -E "^test |^test result"
+git apply -R SEED/patch.diff
 echo "== demo without change"; cargo test --offline --test zz_seed_demo 2>&1 | grep -E "^test |^test result"
-git stash pop -q
+git apply SEED/patch.diff
 rm -f tests/zz_seed_demo.rs
 git status --short | head
